@@ -486,6 +486,8 @@ static void phase_basis(Result &r, Shape const &sh)
       if (k >= 0) r.violation("C16:" + fk + ":set_div-dense-field", mismatch_json(g, "set_div dense", k, obs, ref, "\"variant\":\"" + std::string(v.name) + "\",\"sums\":" + vec_json(S) + ","));
     }
   }
+  r.sample("{\"phase\":\"BASIS\",\"grid\":" + g.str() + ",\"unit_gradient_cases\":" + std::to_string(7 * g.nbins * g.nd) + ",\"unit_potential_cases\":" + std::to_string(2 * g.nnodes) +
+           ",\"example\":\"unit mean gradient in bin 0 component 0 -> divergence at every node compared with the reference stencil, via set_div() and via update_div_neighbors() from zero\"}", 1);
   // Laplacian: every unit potential
   for (int ctor2 = 0; ctor2 < 2; ctor2++) {
     Sut s;
@@ -546,6 +548,7 @@ static void phase_solve(Result &r, Shape const &sh)
   std::vector<long> C(g.nbins, 1);
   const int itmax = 2000;   // unknowns <= 343; CG terminates in <= that many steps in exact arithmetic
   long nloads = g.nbins * g.nd + 2;
+  r.sample("{\"phase\":\"SOLVE\",\"grid\":" + g.str() + ",\"loads\":" + std::to_string(nloads) + ",\"tolerances\":[1e-6,1e-10],\"stages\":[\"fresh solve\",\"integrate x4 on unchanged data\",\"re-solve after the load is replaced by zero / uniform / another unit load\"]}", 1);
   bool allper = true; for (int d = 0; d < g.nd; d++) if (!g.per[d]) allper = false;
   for (long l = 0; l < nloads; l++) {
     std::vector<double> S(g.nbins * g.nd, 0.0);
@@ -793,7 +796,7 @@ static void phase_conv(Result &r, int which, int nd, int flags)
   r.seen("states", key); r.seen("nontrivial", key);
   std::vector<double> ord2, ordm;
   for (size_t i = 0; i + 1 < levels.size(); i++) { ord2.push_back(std::log2(e2[i] / e2[i + 1])); ordm.push_back(std::log2(emax[i] / emax[i + 1])); }
-  std::string det = "{\"surface\":" + std::to_string(which) + ",\"flags\":\"" + flagname(g0) + "\",\"levels\":" + vec_json(std::vector<double>(levels.begin(), levels.end())) +
+  std::string det = "{\"phase\":\"CONV\",\"surface\":" + std::to_string(which) + ",\"flags\":\"" + flagname(g0) + "\",\"levels\":" + vec_json(std::vector<double>(levels.begin(), levels.end())) +
                     ",\"rms_error\":" + vec_json(e2) + ",\"max_error\":" + vec_json(emax) + ",\"order_rms\":" + vec_json(ord2) + ",\"order_max\":" + vec_json(ordm) +
                     ",\"cg_iterations\":" + vec_json(std::vector<double>(iters.begin(), iters.end())) + "}";
   r.sample(det, 3);
@@ -1211,6 +1214,19 @@ static void worker(int shard, int nshards, Result &r, std::vector<Item> const &i
     r.count("local_distinct_states", (long) tmp.distinct["states"].size());
     r.count("local_distinct_nontrivial", (long) tmp.distinct["nontrivial"].size());
     tmp.distinct.clear();
+    {
+      // keep at most one written-out sample per phase
+      std::vector<std::string> keep;
+      for (auto &x : tmp.samples) {
+        size_t p0 = x.find("\"phase\":\"");
+        std::string ph = p0 == std::string::npos ? "" : x.substr(p0, 16);
+        bool have = false;
+        for (auto &y : r.samples) if (y.find(ph) != std::string::npos) have = true;
+        for (auto &y : keep) if (y.find(ph) != std::string::npos) have = true;
+        if (!have) keep.push_back(x);
+      }
+      tmp.samples = keep;
+    }
     r.merge(tmp);
     if (g_px->errtxt.size()) {
       r.notes.push_back("library error text during phase " + std::to_string(it.phase) + ": " + g_px->errtxt.substr(0, 200));
@@ -1303,6 +1319,14 @@ int main(int argc, char **argv)
           (long) total.distinct["nontrivial"].size() + total.counters["local_distinct_nontrivial"], total.viol_count.size(), now() - t0);
   for (auto &kv : total.counters) fprintf(stderr, "  counter %s = %ld\n", kv.first.c_str(), kv.second);
   for (auto &kv : total.viol_count) fprintf(stderr, "  VIOL %s x %ld\n", kv.first.c_str(), kv.second);
+  {
+    auto prio = [](std::string const &x) {
+      const char *order[] = {"\"phase\":\"ABF\"", "\"phase\":\"ARR\"", "\"phase\":\"BASIS\"", "\"phase\":\"SOLVE\"", "\"phase\":\"ONED\"", "\"phase\":\"CONV\""};
+      for (int i = 0; i < 6; i++) if (x.find(order[i]) != std::string::npos) return i;
+      return 6;
+    };
+    std::stable_sort(total.samples.begin(), total.samples.end(), [&](std::string const &a, std::string const &b) { return prio(a) < prio(b); });
+  }
   // fold the per-item exact counts into the distinct sets' sizes (see worker())
   write_result_c16(args.out, args.tier, total, g_only.empty(),
                    (long) total.distinct["states"].size() + total.counters["local_distinct_states"],
